@@ -210,3 +210,33 @@ def unwrap(fn: Any) -> Any:
     while hasattr(fn, '_fvm_orig'):
         fn = fn._fvm_orig
     return fn
+
+
+# ---- constructor arguments as passed by the client --------------------------------------------------
+# Reference models must be fed with what the client asked for, not with what the library stored
+# (a change that rewrites the parameters at construction would otherwise be invisible).
+
+import collections
+import inspect
+
+_CLIENT_ARGS: 'collections.OrderedDict[int, tuple[Any, dict[str, Any]]]' = collections.OrderedDict()
+
+
+def record_client_args(obj: Any, init: Any, args: tuple[Any, ...], kwargs: dict[str, Any]) -> None:
+    try:
+        bound = inspect.signature(init).bind(obj, *args, **kwargs)
+        bound.apply_defaults()
+        params = dict(list(bound.arguments.items())[1:])
+    except Exception:  # noqa: BLE001
+        return
+    with _lock:
+        _CLIENT_ARGS[id(obj)] = (obj, params)
+        while len(_CLIENT_ARGS) > 20000:
+            _CLIENT_ARGS.popitem(last=False)
+
+
+def client_args(obj: Any) -> dict[str, Any] | None:
+    rec = _CLIENT_ARGS.get(id(obj))
+    if rec is None or rec[0] is not obj:
+        return None
+    return rec[1]
